@@ -268,4 +268,11 @@ def raising_compare_inline(s: ast.If, recorded: str, other: str) -> bool:
     return False
 
 
-RULES = [r1_per_class_length_agreement, r2_opcode_emitters, r3_traversal_agreement, r4_state_dependent_width_rechecked]
+
+def rb_binding_agreement(ctx: Ctx) -> None:
+    from ..ownership import binding_agreement
+
+    binding_agreement(ctx)
+
+
+RULES = [r1_per_class_length_agreement, r2_opcode_emitters, r3_traversal_agreement, r4_state_dependent_width_rechecked, rb_binding_agreement]
